@@ -76,6 +76,36 @@ type StackLit struct {
 	Keys int    `json:"keys"` // number of entries of the literal; -1 = make()/conversion (size unknown)
 }
 
+// TAllow is a reviewed line `tbaa <type> <op|*> <func|prefix*>`: writes through a
+// reference into objects of that type by that function only ever hit objects
+// the function (or its caller, per the justification) created for this render
+type TAllow struct {
+	Type, Op, Func, Why string
+	Prefix              bool
+	used                int
+}
+
+func (a *TAllow) matches(w TWrite) bool {
+	if a.Type != w.Type || !(a.Op == "*" || a.Op == w.Op) {
+		return false
+	}
+	if a.Prefix {
+		return strings.HasPrefix(w.Func, a.Func)
+	}
+	return a.Func == w.Func
+}
+
+// MAllow is a reviewed line `maprange <func> <map type> <shape>`: the body of
+// that range-over-map does not let the iteration order reach the output
+type MAllow struct {
+	Func, Type, Shape, Why string
+	used                   int
+}
+
+func (a *MAllow) matches(r MapRange) bool {
+	return a.Func == r.Func && a.Type == r.Type && a.Shape == r.Shape
+}
+
 type Allow struct {
 	Var, Kind, Detail, Why string
 	// optional condition `needs=<var>:<kind>:<detail>`: the line only covers a
@@ -90,6 +120,8 @@ func main() {
 	coq := flag.String("coq", "", "Coq output file")
 	allowF := flag.String("allow", "", "allow-list file")
 	jsonF := flag.String("json", "", "JSON report")
+	gomod := flag.String("gomod", "/verif/go", "directory of the harness module (its go.mod replaces the module by -repo); used for `go list -export`")
+	dump := flag.String("dump", "", "write the full typed inventory (escapes, alias writes, type-based writes) as JSON to this file")
 	flag.Parse()
 
 	pkgs := map[string]*pkgInfo{}
@@ -265,7 +297,10 @@ func main() {
 		if stacks[i].File != stacks[j].File {
 			return stacks[i].File < stacks[j].File
 		}
-		return stacks[i].Line < stacks[j].Line
+		if stacks[i].Line != stacks[j].Line {
+			return stacks[i].Line < stacks[j].Line
+		}
+		return stacks[i].Keys > stacks[j].Keys
 	})
 	var multi []StackLit
 	for _, st := range stacks {
@@ -274,7 +309,64 @@ func main() {
 		}
 	}
 
-	allows := readAllow(*allowF)
+	tres, terr := runTyped(*repo, *gomod)
+	if terr != nil {
+		fmt.Fprintln(os.Stderr, "typed analysis:", terr)
+		os.Exit(2)
+	}
+	if *dump != "" {
+		b, _ := json.MarshalIndent(tres, "", " ")
+		os.WriteFile(*dump, b, 0o644)
+	}
+	allows, tallows, mallows := readAllow(*allowF)
+	writes = append(writes, tres.AliasWrites...)
+	var escapes []Write
+	for _, e := range tres.Escapes {
+		d := e.Detail
+		if d == "" {
+			d = "-"
+		}
+		escapes = append(escapes, Write{File: e.File, Line: e.Line, Var: e.Var, Kind: "escape-" + e.Kind, Detail: d, Func: e.Func})
+	}
+	var badEsc []Write
+	for _, w := range escapes {
+		ok := false
+		for i := range allows {
+			if allows[i].matches(w) && allows[i].needsOK(w, escapes) {
+				allows[i].used++
+				ok = true
+			}
+		}
+		if !ok {
+			badEsc = append(badEsc, w)
+		}
+	}
+	var badM []MapRange
+	for _, r := range tres.MapRanges {
+		ok := false
+		for i := range mallows {
+			if mallows[i].matches(r) {
+				mallows[i].used++
+				ok = true
+			}
+		}
+		if !ok {
+			badM = append(badM, r)
+		}
+	}
+	var badT []TWrite
+	for _, w := range tres.TWrites {
+		ok := false
+		for i := range tallows {
+			if tallows[i].matches(w) {
+				tallows[i].used++
+				ok = true
+			}
+		}
+		if !ok {
+			badT = append(badT, w)
+		}
+	}
 	var bad []Write
 	for _, w := range writes {
 		ok := false
@@ -295,11 +387,28 @@ func main() {
 		}
 	}
 
-	if *coq != "" {
-		writeCoq(*coq, globals, writes, allows, stacks)
+	for _, a := range tallows {
+		if a.used == 0 {
+			unused = append(unused, "tbaa "+a.Type+" "+a.Op+" "+a.Func)
+		}
 	}
-	rep := map[string]interface{}{"globals": len(globals), "writes": len(writes), "allow_lines": len(allows),
-		"not_allowed": bad, "unused_allow_lines": unused, "resume_stack_constructions": len(stacks), "resume_stack_not_single_key": multi}
+	for _, a := range mallows {
+		if a.used == 0 {
+			unused = append(unused, "maprange "+a.Func+" "+a.Type+" "+a.Shape)
+		}
+	}
+	escVars := map[string]bool{}
+	for _, e := range escapes {
+		escVars[e.Var] = true
+	}
+	if *coq != "" {
+		writeCoq(*coq, globals, writes, allows, stacks, escapes, tres, tallows, mallows)
+	}
+	rep := map[string]interface{}{"globals": len(globals), "writes": len(writes), "allow_lines": len(allows) + len(tallows) + len(mallows),
+		"map_ranges": len(tres.MapRanges), "map_ranges_not_allowed": badM,
+		"not_allowed": bad, "unused_allow_lines": unused,
+		"ref_globals": len(tres.RefGlobals), "escaping_globals": len(escVars), "escape_sites": len(escapes), "escapes_not_allowed": badEsc,
+		"alias_writes": len(tres.AliasWrites), "tbaa_writes": len(tres.TWrites), "tbaa_not_allowed": badT, "type_errors": tres.Errors, "resume_stack_constructions": len(stacks), "resume_stack_not_single_key": multi}
 	b, _ := json.MarshalIndent(rep, "", " ")
 	if *jsonF != "" {
 		os.WriteFile(*jsonF, append(b, '\n'), 0o644)
@@ -672,10 +781,12 @@ func (a *analysis) call(c *ast.CallExpr) {
 
 // ------------------------------------------------------------------ allow list
 
-func readAllow(path string) []Allow {
+func readAllow(path string) ([]Allow, []TAllow, []MAllow) {
 	var out []Allow
+	var tout []TAllow
+	var mout []MAllow
 	if path == "" {
-		return out
+		return out, tout, mout
 	}
 	b, err := os.ReadFile(path)
 	if err != nil {
@@ -690,6 +801,26 @@ func readAllow(path string) []Allow {
 		}
 		fs := strings.Fields(line)
 		if len(fs) == 0 {
+			continue
+		}
+		if fs[0] == "tbaa" {
+			if len(fs) != 4 || why == "" {
+				fmt.Fprintf(os.Stderr, "allow list line %d: want `tbaa <type> <op|*> <func|prefix*>  # justification`\n", ln+1)
+				os.Exit(2)
+			}
+			ta := TAllow{Type: fs[1], Op: fs[2], Func: fs[3], Why: why}
+			if strings.HasSuffix(ta.Func, "*") {
+				ta.Prefix, ta.Func = true, strings.TrimSuffix(ta.Func, "*")
+			}
+			tout = append(tout, ta)
+			continue
+		}
+		if fs[0] == "maprange" {
+			if len(fs) != 4 || why == "" {
+				fmt.Fprintf(os.Stderr, "allow list line %d: want `maprange <func> <map type> <shape>  # justification`\n", ln+1)
+				os.Exit(2)
+			}
+			mout = append(mout, MAllow{Func: fs[1], Type: fs[2], Shape: fs[3], Why: why})
 			continue
 		}
 		a := Allow{Why: why}
@@ -709,7 +840,7 @@ func readAllow(path string) []Allow {
 		a.Var, a.Kind, a.Detail = fs[0], fs[1], fs[2]
 		out = append(out, a)
 	}
-	return out
+	return out, tout, mout
 }
 
 func (a *Allow) matches(w Write) bool {
@@ -732,7 +863,7 @@ func (a *Allow) needsOK(w Write, all []Write) bool {
 
 func coqStr(s string) string { return "\"" + strings.ReplaceAll(s, "\"", "\"\"") + "\"" }
 
-func writeCoq(path string, globals []string, writes []Write, allows []Allow, stacks []StackLit) {
+func writeCoq(path string, globals []string, writes []Write, allows []Allow, stacks []StackLit, escapes []Write, tres *typedResult, tallows []TAllow, mallows []MAllow) {
 	var sb strings.Builder
 	sb.WriteString("(* GENERATED by /verif/tools/globalwrites from /repo's working tree -- do not edit.\n")
 	sb.WriteString("   Package-level variables of the module (non-test files), every syntactic write site on them\n")
@@ -770,6 +901,52 @@ func writeCoq(path string, globals []string, writes []Write, allows []Allow, sta
 		} else {
 			fmt.Fprintf(&sb, "  SS %s %d (SKeys %d)", coqStr(st.File), st.Line, st.Keys)
 		}
+	}
+	sb.WriteString("\n].\n\n(* typed inventory (go/types): package-level variables of reference-carrying type *)\nDefinition ref_globals : list string := [\n")
+	for i, g := range tres.RefGlobals {
+		if i > 0 {
+			sb.WriteString(";\n")
+		}
+		sb.WriteString("  " + coqStr(g))
+	}
+	sb.WriteString("\n].\n\n(* sites outside init() where reference-carrying data of a package-level variable leaves the\n   pure-read position (kind escape-local/field/global/elem/arg/return/lit/send/range/recv) *)\nDefinition escapes : list gwrite := [\n")
+	for i, w := range escapes {
+		if i > 0 {
+			sb.WriteString(";\n")
+		}
+		fmt.Fprintf(&sb, "  GW %s %d %s %s %s %s", coqStr(w.File), w.Line, coqStr(w.Var), coqStr(w.Kind), coqStr(w.Detail), coqStr(w.Func))
+	}
+	sb.WriteString("\n].\n\n(* writes through a reference into an object whose static type is reachable from the type of a\n   package-level variable (type-based over-approximation of aliasing), provably fresh objects excluded *)\nDefinition twrites : list twrite := [\n")
+	for i, w := range tres.TWrites {
+		if i > 0 {
+			sb.WriteString(";\n")
+		}
+		fmt.Fprintf(&sb, "  TW %s %d %s %s %s %s", coqStr(w.File), w.Line, coqStr(w.Type), coqStr(w.Op), coqStr(w.Func), coqStr(w.Via))
+	}
+	sb.WriteString("\n].\n\nDefinition tallowed : list tallow := [\n")
+	for i, a := range tallows {
+		if i > 0 {
+			sb.WriteString(";\n")
+		}
+		pf := "false"
+		if a.Prefix {
+			pf = "true"
+		}
+		fmt.Fprintf(&sb, "  TA %s %s %s %s", coqStr(a.Type), coqStr(a.Op), coqStr(a.Func), pf)
+	}
+	sb.WriteString("\n].\n\n(* every range over a Go map outside init() *)\nDefinition map_ranges : list mrange := [\n")
+	for i, r := range tres.MapRanges {
+		if i > 0 {
+			sb.WriteString(";\n")
+		}
+		fmt.Fprintf(&sb, "  MR %s %d %s %s %s", coqStr(r.File), r.Line, coqStr(r.Func), coqStr(r.Type), coqStr(r.Shape))
+	}
+	sb.WriteString("\n].\n\nDefinition mallowed : list mallow := [\n")
+	for i, a := range mallows {
+		if i > 0 {
+			sb.WriteString(";\n")
+		}
+		fmt.Fprintf(&sb, "  MA %s %s %s", coqStr(a.Func), coqStr(a.Type), coqStr(a.Shape))
 	}
 	sb.WriteString("\n].\n")
 	old, _ := os.ReadFile(path)
